@@ -184,7 +184,12 @@ static int encode_special_opd(struct instr *instrc, int m, int i) {
 int encode_operands(struct instr *instrc) {
 
   // xchg instruction with RM operand encoding using rax or al register
-  if (NAME(instrc->key, xchg) && !instrc->mem_disp) {
+  // (xchg eax, eax is not the one-byte nop: in 64-bit mode it clears the upper
+  // half of rax and has to use the generic form)
+  if (NAME(instrc->key, xchg) && !instrc->mem_disp &&
+      !(instrc->opd[0].reg == instrc->opd[1].reg &&
+        (MODE_MASK & instrc->opd[0].reg) == reg32 &&
+        (REG_MASK & instrc->opd[0].reg) == al)) {
     if ((MODE_MASK & instrc->opd[0].reg) > noext8 &&
         (REG_MASK & instrc->opd[0].reg) == al) {
       // swap operands
